@@ -117,13 +117,13 @@ PROPS = {
         'profiles': [SAOLONG, SAO],
         'projection': ['order.Shard+keys', 'order.Shard#7', 'order.Shard#8', 'order.Shard#9', 'order.Order+keys', 'model.Metadata+keys', 'model.Metadata#11',
                        'sao.ExpiredShard', 'model.ExpiredData', 'node.Pledge#5', 'node.Pledge#1', 'market.Worker'],
-        'monitors': ['ref.completed_scheduled', 'sched.meta_scheduled', 'sched.expdata_live', 'sched.meta_covers_shards', 'sched.future'], 'families': ['block', 'sao'],
+        'monitors': ['ref.completed_scheduled', 'sched.meta_scheduled', 'sched.expdata_live', 'sched.meta_covers_shards', 'sched.meta_covers_renewals', 'sched.future'], 'families': ['block', 'sao'],
     },
     'C12': {
         'theorems': 'Properties/C12', 'obligation_files': ['Obligations/ObShape'],
         'profiles': [SAO, SAOLONG],
         'projection': ['order.Order#5', 'order.Order#6', 'order.Order#7', 'order.Order#8', 'order.Order+keys', 'sao.TimeoutOrder', 'order.Shard#1'],
-        'monitors': ['sched.timeout_scheduled'], 'families': ['block', 'sao'],
+        'monitors': ['sched.timeout_scheduled', 'sched.long_timeout_scheduled', 'sched.timeouts_future'], 'families': ['block', 'sao'],
     },
     'C13': {
         'theorems': 'Properties/C13', 'obligation_files': [],
@@ -166,7 +166,7 @@ PROPS = {
         'theorems': 'Properties/C19', 'obligation_files': [],
         'profiles': [SAO],
         'projection': ['node.FaultById', 'node.FaultIndex', 'node.FishingReward', 'bank.Balance', 'node.Pledge', 'order.', 'model.Metadata'],
-        'monitors': ['frame.faults', 'authz.faults'], 'families': ['fault'],
+        'monitors': ['frame.faults', 'authz.faults', 'authz.recover_own'], 'families': ['fault'],
     },
     'C20': {
         'theorems': 'Properties/C20', 'obligation_files': ['Obligations/ObShape'],
